@@ -17,6 +17,7 @@ import (
 	"github.com/benoitkugler/webrender/images"
 	"github.com/benoitkugler/webrender/logger"
 	mt "github.com/benoitkugler/webrender/matrix"
+	"github.com/benoitkugler/webrender/utils"
 	"github.com/benoitkugler/webrender/utils/testutils/tracer"
 )
 
@@ -514,6 +515,26 @@ func vStackingOrderLong() (n int, fails []string) {
 // box with z-index auto is painted as a context of its own at its place in TREE ORDER among the child contexts
 // (it is inserted at the position the list had before its descendants were visited); a float that is not
 // positioned goes to the floats.
+// CSS 2.1 §17.5.1 (table layers): the backgrounds of a table are painted from the bottom layer up: the table,
+// then each column group FOLLOWED by its columns, then each row group followed by its rows, each row followed
+// by its cells.
+//@ func (drawContext).drawTable
+//@   props C16
+//@   requires table != nil
+//@   modifies anything
+//@   unclaimed call-*-pre* "box accessors"
+//@   call drawBackgroundDefaut#1 assert[table-layer-first] arg1 == table.Background && calls(drawBackgroundDefaut) == 1
+//@   call drawBackgroundDefaut#2 assert[column-group-below-its-columns] arg1 == columnGroup.Background
+//@   call drawBackgroundDefaut#3 assert[columns-above-their-group] arg1 == column.Box().Background
+//@   call drawBackgroundDefaut#4 assert[row-group-below-its-rows] arg1 == rowGroup.Box().Background
+//@   call drawBackgroundDefaut#5 assert[row-below-its-cells] arg1 == row.Box().Background
+//@   call drawBackgroundDefaut#6 assert[cells-on-top] arg1 == callresult(Box, 6).Background
+
+//@ func NewStackingContextFromBox
+//@   props C16
+//@   modifies anything
+//@   call NewStackingContext#1 assert[own-children-not-the-parents-list] len(arg1) == len(children) && forall(k, 0, len(arg1), arg1[k].box == children[k].box && arg1[k].zIndex == children[k].zIndex)
+//@   call NewStackingContext#1 assert[layers-collected-here] arg5 == page
 //@ func NewStackingContextFromBox$1
 //@   props C16
 //@   modifies anything
@@ -728,3 +749,78 @@ func vDrawLines() (n int, fails []string) {
 //@   call drawBackground#2 assert[then-the-canvas-background] arg1 == page.CanvasBackground && !arg2 && calls(drawBorder) == 0 && calls(drawStackingContext) == 0
 //@   call drawBorder#1 assert[then-the-border] arg1 == page && calls(drawBackground) == 2 && calls(drawStackingContext) == 0
 //@   call drawStackingContext#1 assert[then-the-contents] arg1 == stackingContext && calls(drawBorder) == 1
+
+// bounded stand-in (C14): border images. drawBorderImage divides by slice sizes, scales and repeat counts inside
+// a closure called eight times; a per-division proof needs sign facts about the box geometry that are not tracked.
+// vBorderImages computes the style of `border-image-source: <gradient>` with every combination of 6 slices x
+// 4 x 4 repeat keywords x 4 border-image-widths x 2 outsets, puts it on a box of 3 sizes (a middle region much
+// smaller than its slice included) x 3 border widths and draws the border on a number-checking canvas: no panic,
+// and every coordinate and matrix entry handed to the backend is finite.
+func (s vFiniteState) Transform(m mt.Transform) { vFinite(s.bad, "Transform", m.A, m.B, m.C, m.D, m.E, m.F) }
+func (s vFiniteState) Clip(bool)                {}
+
+func vBorderImages() (n int, fails []string) {
+	logger.WarningLogger.SetOutput(io.Discard)
+	defer logger.WarningLogger.SetOutput(os.Stdout)
+	logger.ProgressLogger.SetOutput(io.Discard)
+	defer logger.ProgressLogger.SetOutput(os.Stdout)
+	page := tracer.NewDrawerNoOp().AddPage(0, 0, 100, 100)
+	repeats := []string{"stretch", "repeat", "round", "space"}
+	for _, slice := range []string{"0", "10", "10%", "45% 10% 45% 10%", "100%", "30 fill"} {
+		for _, rx := range repeats {
+			for _, ry := range repeats {
+				for _, biw := range []string{"1", "auto", "10px 40%", "0"} {
+					for _, outset := range []string{"0", "2 5px"} {
+						css := fmt.Sprintf("border-style:solid;border-image-source:linear-gradient(red,blue);border-image-slice:%s;border-image-repeat:%s %s;border-image-width:%s;border-image-outset:%s", slice, rx, ry, biw, outset)
+						doc, err := tree.NewHTML(utils.InputString("<p style=\""+css+"\"></p>"), "", nil, "")
+						if err != nil {
+							fails = append(fails, err.Error())
+							continue
+						}
+						styleFor := tree.GetAllComputedStyles(doc, nil, false, nil, nil, nil, nil, false, nil)
+						var style pr.ElementStyle
+						it := doc.Root.Iter()
+						for it.HasNext() {
+							if e := it.Next(); e.Data == "p" {
+								style = styleFor.Get((*utils.HTMLNode)(e), "")
+							}
+						}
+						grad, ok := style.GetBorderImageSource().(pr.LinearGradient)
+						if !ok {
+							fails = append(fails, css+": no gradient in the computed style")
+							continue
+						}
+						for _, size := range [][2]pr.Float{{100, 60}, {4, 4}, {0, 30}} {
+							for _, bw := range []pr.Float{0, 3, 45} {
+								n++
+								box := bo.NewBlockBox(style, nil, "", nil)
+								f := box.Box()
+								f.BorderImage = images.NewLinearGradient(grad)
+								f.PositionX, f.PositionY, f.Width, f.Height = pr.Float(0), pr.Float(0), size[0], size[1]
+								f.MarginTop, f.MarginRight, f.MarginBottom, f.MarginLeft = pr.Float(0), pr.Float(0), pr.Float(0), pr.Float(0)
+								f.PaddingTop, f.PaddingRight, f.PaddingBottom, f.PaddingLeft = pr.Float(0), pr.Float(0), pr.Float(0), pr.Float(0)
+								f.BorderTopWidth, f.BorderRightWidth, f.BorderBottomWidth, f.BorderLeftWidth = bw, bw, bw, bw
+								var bad []string
+								func() {
+									defer func() {
+										if r := recover(); r != nil {
+											bad = append(bad, fmt.Sprintf("panic: %v", r))
+										}
+									}()
+									drawContext{dst: vFiniteCanvas{page, &bad}}.drawBorderImage(f)
+								}()
+								if len(bad) != 0 && len(fails) < 6 {
+									fails = append(fails, fmt.Sprintf("%s on a %vx%v box with borders of %v: %s", css, size[0], size[1], bw, bad[0]))
+								}
+							}
+						}
+					}
+				}
+			}
+		}
+	}
+	return n, fails
+}
+
+//@ bounded vBorderImages drawBorderImage for a gradient source with 6 slices x 16 repeat pairs x 4 border-image-widths x 2 outsets x 3 box sizes x 3 border widths (6 912 boxes) on a number-checking canvas: no panic, every coordinate and matrix entry handed to the backend is finite
+//@   props C14
